@@ -128,6 +128,19 @@ def finished_counts_oracle():
                 break
         if out:
             break
+    # expressions nested thousands of levels deep, and an `execute` whose operation fails while running: a message,
+    # and the prompt comes back (defects D52, D53)
+    rs = dc.RealSession("SET(R1, 1)\nHALT()\n", {"big_stack": False, "init": [], "warn_return_on": True})
+    if rs.ok and not out:
+        deep = ["print " + "-" * 3000 + "1", "print " + "(" * 2500 + "1" + ")" * 2500, "print " + "1+" * 3000 + "1",
+                "print " + "@" * 3000 + "1", "R1 = " + "-" * 3000 + "1", "@" + "(" * 2500 + "1" + ")" * 2500 + " = 1",
+                'execute __eval("1/0")', 'execute __eval("nosuch")  SET(R2, 3)', "print R1, R2", "next"]
+        for cmd in deep:
+            r = rs.command(cmd, budget=20.0)
+            if r["exc"]:
+                out.append("the shell %s on %r" % ("did not return from" if r["exc"] == "Budget" else "raised " + r["exc"][:60],
+                                                   cmd if len(cmd) < 60 else cmd[:20] + "... (%d characters)" % len(cmd)))
+                break
     return out
 
 
